@@ -237,6 +237,12 @@ def rule_decimals_in_sentences(ctx, rep, langs=ALL_LANGS):
             for fr in fracs:
                 if lang in DIGITS:
                     fsp = ' '.join(DIGITS[lang][int(c)] for c in fr)
+                    for zi, zw in enumerate(lx['zero'][1:]):
+                        if '0' in fr:
+                            # every synonym of zero dictates a 0 in the fraction
+                            text2 = '%s %s %s %s %s' % (w1, isp, sep, ' '.join(zw if c == '0' else DIGITS[lang][int(c)] for c in fr), w2)
+                            items.append(((i, fr, zi), text2, 0.0))
+                            expect[(lang, (i, fr, zi))] = '%s %d%s%s %s' % (w1, i, mark, fr, w2)
                 else:
                     k = len(fr) - len(fr.lstrip('0'))
                     rest = fr.lstrip('0')
@@ -505,12 +511,18 @@ def rule_zeros_in_sentences(ctx, rep, langs=ALL_LANGS):
         z = lexicon(lang)['zero'][0]
         w1, w2 = WORDS[lang]
         items = []
-        for n in (1, 7, 10, 21, 100, 1999):
+        det = {'en': 'the', 'fr': 'le', 'es': 'el', 'pt': 'aquele', 'it': 'il', 'de': 'die', 'nl': 'de'}[lang]
+        for n in (1, 2, 3, 4, 5, 6, 7, 8, 9, 10, 21, 100, 1999):
             sp = ' '.join(spellings(lang, n)[0])
             for k in (1, 2, 3):
                 key = ('lead', n, k)
                 items.append((key, '%s %s %s %s' % (w1, ' '.join([z] * k), sp, w2), 0.0))
                 want[(lang, key)] = '%s %s%d %s' % (w1, '0' * k, n, w2)
+                if k < 3:
+                    # after a determiner, at the end of the text (ambiguity passes look at exactly these neighbours)
+                    key = ('det', n, k)
+                    items.append((key, '%s %s %s %s' % (w1, det, ' '.join([z] * k), sp), 0.0))
+                    want[(lang, key)] = '%s %s %s%d' % (w1, det, '0' * k, n)
             key = ('after', n)
             items.append((key, '%s %s %s %s' % (w1, sp, z, w2), 0.0))
             want[(lang, key)] = '%s %d 0 %s' % (w1, n, w2)
@@ -529,7 +541,7 @@ def rule_zeros_in_sentences(ctx, rep, langs=ALL_LANGS):
             else:
                 okc += 1
         _report(rep, R, lang, 'zeros', bad, okc)
-    rep.floor(R, total, 170, 'sentences rewritten')
+    rep.floor(R, total, 500, 'sentences rewritten')
 
 
 # ---------------------------------------------------------------------------------------------------------
@@ -691,6 +703,12 @@ def rule_spans_validate(ctx, rep, langs=ALL_LANGS):
             for b in (1, 6, 10, 12, 20, 99):
                 texts.append('%s %s %s %s' % (w1, sp(a), sp(b), w2))
         texts.append('%s %s %s %s' % (lx['zero'][0], lx['zero'][0], sp(7), sp(100)))
+        if lx.get('group_syntax') == '-' and cj:
+            for a in (20, 30, 60, 100, 120):
+                head = sp(a).replace(' ', '-')
+                texts.append('%s-%s %s' % (head, cj, sp(1)))        # "vingt-et un": a group ending on the conjunction
+                texts.append('%s-%s %s' % (head, cj, w1))
+                texts.append('%s %s-%s' % (w1, head, cj))
         for n in (1, 3, 21):
             o = ordinal_spellings(lang, n)
             if o:
